@@ -62,6 +62,12 @@ fn get_line_ending_from_buf(buf: &[u8], len: usize) -> &'static str {
     }
 }
 
+/// verification hook: exposes the private line-ending classifier unchanged
+#[cfg(feature = "verif")]
+pub fn verif_get_line_ending_from_buf(buf: &[u8], len: usize) -> &'static str {
+    get_line_ending_from_buf(buf, len)
+}
+
 #[cfg(test)]
 mod ut {
     use super::*;
